@@ -147,9 +147,9 @@ Definition created (s : st) (k : kind) (key : name) (parent : option name) (l : 
 
 Definition P0 (s : st) (d : dirent) : Prop := exists id, d = DId id /\ seq s < id.
 
-Lemma prepare_cases s key parent l mok cbad :
-  let s' := fst (do_prepare s key parent l mok cbad) in
-  let r := snd (do_prepare s key parent l mok cbad) in
+Lemma prepare_cases s key parent l mok cbad lm :
+  let s' := fst (do_prepare s key parent l mok cbad lm) in
+  let r := snd (do_prepare s key parent l mok cbad lm) in
   (exists e E, r = RErr e /\ shrink s s' E /\ selfd (P0 s) E /\
                (forall id, In (DId id) (dirs s) -> id <= seq s -> In (DId id) (dirs s')) /\
                (forall x, In x (mounts s) -> fst x <= seq s -> In x (mounts s')) /\
@@ -158,13 +158,15 @@ Lemma prepare_cases s key parent l mok cbad :
   (exists sn, create_snapshot s KActive key parent l = (created s KActive key parent l, inr sn) /\
      let s1 := created s KActive key parent l in
      let id := S (seq s) in
-     ( (exists s2, ((l_target l = None /\ s2 = s1) \/ (l_target l <> None /\ mok = false /\ s2 = fs_mount s1 id l false)) /\
+     ( (exists s2, ((l_target lm = None /\ s2 = s1) \/ (l_target lm <> None /\ mok = false /\ s2 = fs_mount s1 id lm false)) /\
                    s' = fst (mounts_of cbad s2 sn parent) /\ r = snd (mounts_of cbad s2 sn parent))
-       \/ (exists t, l_target l = Some t /\ mok = true /\ lookup (meta s1) t = None /\ r = RTargetExists /\
-             s' = emit (set_meta (fs_mount s1 id l true)
+       \/ (exists t, l_target lm = Some t /\ mok = true /\ lookup (meta s1) t = None /\ r = RTargetExists /\
+             s' = emit (set_meta (fs_mount s1 id lm true)
                                  ((t, mkI id KCommitted parent (set_remote l)) :: del (meta s1) key)) (EvRemoteCommit id))
-       \/ (exists t j, l_target l = Some t /\ mok = true /\ lookup (meta s1) t = Some j /\ r = RTargetExists /\
-             s' = fs_mount s1 id l true) )).
+       \/ (exists t j, l_target lm = Some t /\ mok = true /\ lookup (meta s1) t = Some j /\ r = RTargetExists /\
+             s' = fs_mount s1 id lm true)
+       \/ (exists t, l_target lm = Some t /\ mok = true /\ bad_name t = true /\ r = RErr EOther /\
+             s' = fs_mount s1 id lm true) )).
 Proof.
   unfold do_prepare.
   destruct (create_snapshot s KActive key parent l) as [s1 [e|sn]] eqn:CS.
@@ -174,20 +176,22 @@ Proof.
   destruct OK as [C [LK [ID [KD [E1 [_ [ND PR]]]]]]].
   fold (created s KActive key parent l) in E1. subst s1. exists sn. split; [reflexivity|].
   set (s1 := created s KActive key parent l). cbv zeta.
-  destruct (l_target l) as [t|] eqn:LT.
+  destruct (l_target lm) as [t|] eqn:LT.
   2:{ left. exists s1. split; [left; auto|]. split; reflexivity. }
   assert (LK1 : lookup (meta s1) key = Some (mkI (S (seq s)) KActive parent l)).
   { unfold s1, created. simpl. rewrite Nat.eqb_refl. reflexivity. }
   rewrite LK1. cbn [i_id].
   destruct mok.
-  2:{ left. exists (fs_mount s1 (S (seq s)) l false). split; [right; split; [congruence|auto]|]. split; reflexivity. }
+  2:{ left. exists (fs_mount s1 (S (seq s)) lm false). split; [right; split; [congruence|auto]|]. split; reflexivity. }
   right.
-  set (s2 := fs_mount s1 (S (seq s)) l true).
+  set (s2 := fs_mount s1 (S (seq s)) lm true).
   assert (M2 : meta s2 = meta s1) by reflexivity.
   assert (C2 : closed s2 = false) by reflexivity.
   unfold commit_active. rewrite C2, M2, LK1. cbn [i_id i_kind i_parent negb andb].
+  destruct (bad_name t) eqn:BN.
+  { right. right. exists t. simpl. auto. }
   destruct (lookup (meta s1) t) as [j|] eqn:LT1.
-  { right. exists t, j. simpl. auto. }
+  { right. left. exists t, j. simpl. auto. }
   left. exists t. split; [reflexivity|]. split; [reflexivity|]. split; [exact LT1|].
   cbn [kind_eqb negb].
   assert (PE : match parent with
@@ -269,10 +273,10 @@ Proof.
   intros I.
   assert (NIL : forall s', log s' = log s -> exists E, log s' = log s ++ E /\ selfd (Pun s' o) E).
   { intros s' H. exists []. split; [rewrite app_nil_r; auto|apply selfd_nil]. }
-  destruct o; simpl.
+  destruct o; simpl; nrm.
   - (* Prepare *)
-    pose proof (prepare_cases s key parent l mok cbad) as PC. cbv zeta in PC.
-    destruct PC as [[e [E [R [Sh [SD _]]]]]|[sn [CS [B1|[B2|B3]]]]].
+    pose proof (prepare_cases s key parent l mok cbad lm) as PC. cbv zeta in PC.
+    destruct PC as [[e [E [R [Sh [SD _]]]]]|[sn [CS [B1|[B2|[B3|B4]]]]]].
     + exists E. split; [destruct Sh; auto|]. eapply selfd_mono; [|exact SD].
       intros d [id [-> Lt]]. right. exists id. split; auto. destruct Sh. rewrite sh_meta.
       intros F. apply in_ids in F. destruct F as [n [i [F Q]]]. apply (inv_le _ I) in F. lia.
@@ -280,13 +284,15 @@ Proof.
       destruct (mounts_of_log cbad s2 sn parent) as [E2 [L2 [Q2 _]]].
       destruct S2 as [[_ ->]|[_ [_ ->]]].
       * eapply quiet_ext with (E0 := []); [ | |exact L2|exact Q2]; [simpl; rewrite app_nil_r; reflexivity|qt].
-      * eapply quiet_ext with (E0 := [EvMount (S (seq s)) l false]); [ | |exact L2|exact Q2]; [reflexivity|qt].
+      * eapply quiet_ext with (E0 := [EvMount (S (seq s)) lm false]); [ | |exact L2|exact Q2]; [reflexivity|qt].
     + destruct B2 as [t [_ [_ [_ [_ E']]]]]. rewrite E'.
-      exists [EvMount (S (seq s)) l true; EvRemoteCommit (S (seq s))]. split.
+      exists [EvMount (S (seq s)) lm true; EvRemoteCommit (S (seq s))]. split.
       * simpl. rewrite <- app_assoc. reflexivity.
       * apply selfd_quiet. qt.
     + destruct B3 as [t [j [_ [_ [_ [_ E']]]]]]. rewrite E'.
-      exists [EvMount (S (seq s)) l true]. split; [reflexivity|]. apply selfd_quiet. qt.
+      exists [EvMount (S (seq s)) lm true]. split; [reflexivity|]. apply selfd_quiet. qt.
+    + destruct B4 as [t [_ [_ [_ [_ E']]]]]. rewrite E'.
+      exists [EvMount (S (seq s)) lm true]. split; [reflexivity|]. apply selfd_quiet. qt.
   - (* View *)
     unfold do_view. destruct (create_snapshot s KView key parent l) as [s1 [e|sn]] eqn:CS.
     + simpl. eapply create_err_log; eauto.
@@ -371,17 +377,18 @@ Lemma step_avail s o m : Inv s -> snd (step s o) = RMounts m ->
     mounted (fst (step s o)) (i_id i) = true /\ ~ In (i_id i) (cbad_of o) /\
     In (EvCheck (i_id i) true) (step_events s o).
 Proof.
-  intros I. unfold step_events. destruct o; simpl; try (intros _ ck Q; discriminate).
+  intros I. unfold step_events. destruct o; simpl; try (intros _ ck Q; discriminate); nrm.
   - (* Prepare *)
-    pose proof (prepare_cases s key parent l mok cbad) as PC. cbv zeta in PC.
-    destruct PC as [[e [E [R _]]]|[sn [CS [B1|[B2|B3]]]]].
+    pose proof (prepare_cases s key parent l mok cbad lm) as PC. cbv zeta in PC.
+    destruct PC as [[e [E [R _]]]|[sn [CS [B1|[B2|[B3|B4]]]]]].
     + rewrite R. discriminate.
     + destruct B1 as [s2 [S2 [E' R']]]. rewrite E', R'. intros R ck CK.
       destruct S2 as [[_ ->]|[_ [_ ->]]].
       * eapply mounts_of_avail with (E0 := []); eauto. simpl. rewrite app_nil_r. reflexivity.
-      * eapply mounts_of_avail with (E0 := [EvMount (S (seq s)) l false]); eauto.
+      * eapply mounts_of_avail with (E0 := [EvMount (S (seq s)) lm false]); eauto.
     + destruct B2 as [t [_ [_ [_ [R _]]]]]. rewrite R. discriminate.
     + destruct B3 as [t [j [_ [_ [_ [R _]]]]]]. rewrite R. discriminate.
+    + destruct B4 as [t [_ [_ [_ [R _]]]]]. rewrite R. discriminate.
   - (* View *)
     unfold do_view. destruct (create_snapshot s KView key parent l) as [s1 [e|sn]] eqn:CS.
     + simpl. discriminate.
@@ -428,7 +435,7 @@ Qed.
 
 Lemma non_mount s o m : op_key o = None -> snd (step s o) <> RMounts m.
 Proof.
-  destruct o; simpl; try discriminate; intros _.
+  destruct o; simpl; try discriminate; intros _; nrm.
   - destruct (commit_active s nm key l false) as [s1 [e|]]; simpl; discriminate.
   - unfold do_remove. destruct (closed s); [simpl; discriminate|].
     destruct (lookup (meta s) key) as [i|]; [|simpl; discriminate].
@@ -451,10 +458,10 @@ Lemma step_lower s o m : Inv s -> snd (step s o) = RMounts m ->
   exists key i sn, op_key o = Some key /\ lookup (meta (fst (step s o))) key = Some i /\
                    m = mount_shape sn /\ lower_spec (meta (fst (step s o))) i sn.
 Proof.
-  intros I. destruct o; try (intros H; exfalso; eapply non_mount; [|exact H]; reflexivity); simpl.
+  intros I. destruct o; try (intros H; exfalso; eapply non_mount; [|exact H]; reflexivity); simpl; nrm.
   - (* Prepare *)
-    pose proof (prepare_cases s key parent l mok cbad) as PC. cbv zeta in PC.
-    destruct PC as [[e [E [R _]]]|[sn [CS [B1|[B2|B3]]]]].
+    pose proof (prepare_cases s key parent l mok cbad lm) as PC. cbv zeta in PC.
+    destruct PC as [[e [E [R _]]]|[sn [CS [B1|[B2|[B3|B4]]]]]].
     + rewrite R. discriminate.
     + destruct B1 as [s2 [S2 [E' R']]]. rewrite E', R'. intros R.
       assert (M2 : meta s2 = meta (created s KActive key parent l)).
@@ -463,6 +470,7 @@ Proof.
       exists key, i, sn. auto.
     + destruct B2 as [t [_ [_ [_ [R _]]]]]. rewrite R. discriminate.
     + destruct B3 as [t [j [_ [_ [_ [R _]]]]]]. rewrite R. discriminate.
+    + destruct B4 as [t [_ [_ [_ [R _]]]]]. rewrite R. discriminate.
   - (* View *)
     unfold do_view. destruct (create_snapshot s KView key parent l) as [s1 [e|sn]] eqn:CS.
     + simpl. discriminate.
@@ -521,16 +529,16 @@ Lemma prepare_target s key parent l mok cbad t :
   target_outcome s (fst (step s (Prepare key parent l mok cbad))) key l mok t
                  (snd (step s (Prepare key parent l mok cbad))).
 Proof.
-  intros I LT NE TC. simpl.
-  pose proof (prepare_cases s key parent l mok cbad) as PC. cbv zeta in PC.
-  destruct PC as [[e [E [R [Sh _]]]]|[sn [CS [B1|[B2|B3]]]]].
+  intros I LT NE TC. simpl. unfold target_outcome. remember (norm l) as ln eqn:Hn. clear Hn.
+  pose proof (prepare_cases s key parent ln mok cbad l) as PC. cbv zeta in PC.
+  destruct PC as [[e [E [R [Sh _]]]]|[sn [CS [B1|[B2|[B3|B4]]]]]].
   - rewrite R. simpl. left. destruct Sh; auto.
   - destruct B1 as [s2 [S2 [E' R']]]. rewrite E', R'.
     destruct S2 as [[Q _]|[_ [MF ->]]]; [congruence|]. subst mok.
     pose proof (create_ok _ _ _ _ _ _ _ CS) as OK. destruct OK as [_ [LK [ID [KD _]]]].
-    set (s2 := fs_mount (created s KActive key parent l) (S (seq s)) l false).
+    set (s2 := fs_mount (created s KActive key parent ln) (S (seq s)) l false).
     destruct (mounts_of_spec cbad s2 sn parent) as [E [Sh [_ [M [_ [RR _]]]]]].
-    destruct RR as [RR|RR]; rewrite RR; simpl; [|right; auto].
+    destruct RR as [RR|RR]; rewrite RR; simpl; [|right; left; auto].
     split; [reflexivity|]. destruct Sh. rewrite sh_meta. simpl. rewrite Nat.eqb_refl.
     eexists. split; [reflexivity|]. simpl. split; [reflexivity|]. split; [reflexivity|]. split.
     + destruct (mounted (fst (mounts_of cbad s2 sn parent)) (S (seq s))) eqn:MM; auto.
@@ -548,6 +556,11 @@ Proof.
     simpl in LS. destruct (Nat.eqb_spec key t); [congruence|].
     simpl. destruct (Nat.eqb_spec key t); [congruence|]. exists j. split; [exact LS|]. split; [eauto|].
     intros Q. congruence.
+  - destruct B4 as [t' [LT' [MT [BN [R E']]]]]. rewrite R, E'. simpl. right. right.
+    split; [exact MT|]. split; [discriminate|]. rewrite Nat.eqb_refl. eexists. split; [reflexivity|].
+    simpl. split; [reflexivity|]. split; [reflexivity|].
+    unfold mount_count. simpl. rewrite Nat.eqb_refl. simpl. f_equal. apply count_none.
+    intros x Hx Q. apply (inv_mle _ I) in Hx. lia.
 Qed.
 
 (* ---------- a snapshot committed as remote keeps its backend mount until removed or closed ---------- *)
@@ -656,17 +669,17 @@ Proof. intros H C id Hid. split; [auto|]. congruence. Qed.
 
 Lemma step_rinv s o : Inv s -> RInv s -> RInv (fst (step s o)).
 Proof.
-  intros I R. destruct o; simpl.
+  intros I R. destruct o; simpl; nrm.
   - (* Prepare *)
-    pose proof (prepare_cases s key parent l mok cbad) as PC. cbv zeta in PC.
-    destruct PC as [[e [E [_ [_ [_ [_ [_ CS]]]]]]]|[sn [CS [B1|[B2|B3]]]]].
+    pose proof (prepare_cases s key parent l mok cbad lm) as PC. cbv zeta in PC.
+    destruct PC as [[e [E [_ [_ [_ [_ [_ CS]]]]]]]|[sn [CS [B1|[B2|[B3|B4]]]]]].
     + eapply rinv_create_err; eauto.
     + destruct B1 as [s2 [S2 [E' _]]]. rewrite E'. apply rinv_mounts_of.
       pose proof (create_ok _ _ _ _ _ _ _ CS) as [C0 _].
       destruct S2 as [[_ ->]|[_ [_ ->]]]; [|apply rinv_mount]; apply rinv_created; auto.
     + destruct B2 as [t [_ [_ [LN [_ E']]]]]. rewrite E'.
       set (s1 := created s KActive key parent l) in *.
-      set (s2 := fs_mount s1 (S (seq s)) l true).
+      set (s2 := fs_mount s1 (S (seq s)) lm true).
       pose proof (create_ok _ _ _ _ _ _ _ CS) as [C0 _].
       assert (R2 : RInv s2) by (apply rinv_mount; apply rinv_created; auto).
       intros id H. simpl in H. apply in_app_or in H. destruct H as [H|[H|[]]].
@@ -677,6 +690,8 @@ Proof.
         -- simpl. right. eapply del_ids_sub; exact I3.
       * inversion H; subst id. split; [simpl; lia|]. intros _ _. unfold mounted, s2, fs_mount. simpl. rewrite Nat.eqb_refl. reflexivity.
     + destruct B3 as [t [j [_ [_ [_ [_ E']]]]]]. rewrite E'.
+      pose proof (create_ok _ _ _ _ _ _ _ CS) as [C0 _]. apply rinv_mount. apply rinv_created; auto.
+    + destruct B4 as [t [_ [_ [_ [_ E']]]]]. rewrite E'.
       pose proof (create_ok _ _ _ _ _ _ _ CS) as [C0 _]. apply rinv_mount. apply rinv_created; auto.
   - (* View *)
     unfold do_view. destruct (create_snapshot s KView key parent l) as [s1 [e|sn]] eqn:CS.
@@ -795,22 +810,24 @@ Proof.
   { intros s' L. apply NO with (E := []); [rewrite app_nil_r; exact L|]. intros j b []. }
   assert (N1 : forall e, match e with EvCheck _ _ => False | _ => True end -> nocheck [e]).
   { intros e Q j b [H|[]]. subst e. exact Q. }
-  destruct o; simpl.
+  destruct o; simpl; nrm.
   - (* Prepare *)
-    pose proof (prepare_cases s key parent l mok cbad) as PC. cbv zeta in PC.
-    destruct PC as [[e [E [_ [_ [_ [_ [_ CS]]]]]]]|[sn [CS [B1|[B2|B3]]]]].
+    pose proof (prepare_cases s key parent l mok cbad lm) as PC. cbv zeta in PC.
+    destruct PC as [[e [E [_ [_ [_ [_ [_ CS]]]]]]]|[sn [CS [B1|[B2|[B3|B4]]]]]].
     + intros H. exfalso. apply create_err in CS. destruct CS as [E' [Sh [_ [_ [_ CT]]]]]. destruct Sh.
       eapply NO; eauto. eapply ctrace_nocheck; eauto.
     + destruct B1 as [s2 [S2 [E' R']]]. rewrite E', R'.
       destruct S2 as [[_ ->]|[_ [_ ->]]].
       * apply mounts_of_fail with (E0 := []); [simpl; rewrite app_nil_r; reflexivity|intros j b []].
-      * apply mounts_of_fail with (E0 := [EvMount (S (seq s)) l false]); [reflexivity|apply N1; exact I].
+      * apply mounts_of_fail with (E0 := [EvMount (S (seq s)) lm false]); [reflexivity|apply N1; exact I].
     + destruct B2 as [t [_ [_ [_ [_ E']]]]]. rewrite E'. intros H. exfalso.
-      eapply NO with (E := [EvMount (S (seq s)) l true] ++ [EvRemoteCommit (S (seq s))]); [| |exact H].
+      eapply NO with (E := [EvMount (S (seq s)) lm true] ++ [EvRemoteCommit (S (seq s))]); [| |exact H].
       * simpl. rewrite <- app_assoc. reflexivity.
       * apply nocheck_app; apply N1; exact I.
     + destruct B3 as [t [j [_ [_ [_ [_ E']]]]]]. rewrite E'. intros H. exfalso.
-      eapply NO with (E := [EvMount (S (seq s)) l true]); [ | |exact H]; [reflexivity|apply N1; exact I].
+      eapply NO with (E := [EvMount (S (seq s)) lm true]); [ | |exact H]; [reflexivity|apply N1; exact I].
+    + destruct B4 as [t [_ [_ [_ [_ E']]]]]. rewrite E'. intros H. exfalso.
+      eapply NO with (E := [EvMount (S (seq s)) lm true]); [ | |exact H]; [reflexivity|apply N1; exact I].
   - (* View *)
     unfold do_view. destruct (create_snapshot s KView key parent l) as [s1 [e|sn]] eqn:CS.
     + simpl. intros H. exfalso. apply create_err in CS. destruct CS as [E' [Sh [_ [_ [_ CT]]]]]. destruct Sh.
@@ -872,14 +889,15 @@ Proof.
   { intros cbad s2 sn ck H. destruct (mounts_of_spec cbad s2 sn ck) as [E [_ [D _]]]. rewrite D in H. exact H. }
   assert (CL : forall ub s2 ds, In d (dirs (cleanup_dirs ub s2 ds)) -> In d (dirs s2)).
   { intros ub s2 ds H. destruct (cleanup_dirs_spec ub ds s2) as [E [Sh _]]. destruct Sh. auto. }
-  destruct o; simpl.
-  - pose proof (prepare_cases s key parent l mok cbad) as PC. cbv zeta in PC.
-    destruct PC as [[e [E [_ [Sh _]]]]|[sn [CS [B1|[B2|B3]]]]].
+  destruct o; simpl; nrm.
+  - pose proof (prepare_cases s key parent l mok cbad lm) as PC. cbv zeta in PC.
+    destruct PC as [[e [E [_ [Sh _]]]]|[sn [CS [B1|[B2|[B3|B4]]]]]].
     + intros H. left. destruct Sh. auto.
     + destruct B1 as [s2 [S2 [E' _]]]. rewrite E'. intros H. apply MO in H.
       destruct S2 as [[_ ->]|[_ [_ ->]]]; apply (CR KActive key parent l); exact H.
     + destruct B2 as [t [_ [_ [_ [_ E']]]]]. rewrite E'. intros H. apply (CR KActive key parent l). exact H.
     + destruct B3 as [t [j [_ [_ [_ [_ E']]]]]]. rewrite E'. intros H. apply (CR KActive key parent l). exact H.
+    + destruct B4 as [t [_ [_ [_ [_ E']]]]]. rewrite E'. intros H. apply (CR KActive key parent l). exact H.
   - unfold do_view. destruct (create_snapshot s KView key parent l) as [s1 [e|sn]] eqn:CS.
     + simpl. apply create_err in CS. destruct CS as [E [Sh _]]. destruct Sh. auto.
     + pose proof (create_ok _ _ _ _ _ _ _ CS) as OK. destruct OK as [_ [_ [_ [_ [E1 _]]]]].
